@@ -431,6 +431,7 @@ func (c *ctx) caseM(b *batch, l *Loaded, name string) error {
 	// a nil element of a repeated message field is written as an empty element, never dropped (C08)
 	if c.want("enc") {
 		c.nilElementOracle(l, name, msg, cs)
+		c.nilOneofOracle(msg, cs)
 	}
 	// reference parses it back to the same values and presence (C01)
 	if c.want("enc") {
@@ -864,6 +865,45 @@ func wfField(f *schema.File, fd *schema.Field, typ protowire.Type, raw []byte, d
 
 var picoMessageType = reflect.TypeOf((*picobuf.Message)(nil)).Elem()
 
+// nilOneofOracle: a selected oneof member whose wrapper holds a nil sub-message pointer is a legal Go
+// value; Marshal must not panic on it and must leave it as it is (C17: the message is never modified).
+func (c *ctx) nilOneofOracle(msg picobuf.Message, cs func(map[string]string) map[string]string) {
+	rv := reflect.ValueOf(msg)
+	if rv.Kind() != reflect.Ptr || rv.Elem().Kind() != reflect.Struct {
+		return
+	}
+	st := rv.Elem()
+	for i := 0; i < st.NumField(); i++ {
+		f := st.Field(i)
+		if f.Kind() != reflect.Interface || f.IsNil() || !f.CanSet() {
+			continue
+		}
+		w := f.Elem()
+		if w.Kind() != reflect.Ptr || w.IsNil() || w.Elem().Kind() != reflect.Struct || w.Elem().NumField() != 1 {
+			continue
+		}
+		inner := w.Elem().Field(0)
+		if inner.Kind() != reflect.Ptr || inner.Type().Elem().Kind() != reflect.Struct || !inner.Type().Implements(picoMessageType) || !inner.CanSet() {
+			continue
+		}
+		saved := reflect.New(inner.Type()).Elem()
+		saved.Set(inner)
+		inner.Set(reflect.Zero(inner.Type()))
+		_, bad := realMarshal(msg)
+		changed := !inner.IsNil()
+		inner.Set(saved)
+		c.count("nil_oneof_member_cases")
+		if bad != "" {
+			c.disagree(Disagreement{Kind: "panic", Check: "marshal", Case: cs(map[string]string{"what": "oneof wrapper holding a nil sub-message"}), Got: map[string]string{"real": bad}})
+		}
+		if changed {
+			c.disagree(Disagreement{Kind: "argument-modified", Check: "marshal-leaves-message",
+				Case: cs(map[string]string{"field_index": fmt.Sprint(i), "what": "the nil sub-message of a selected oneof member was allocated by Marshal"})})
+		}
+		return
+	}
+}
+
 // nilElementOracle: for every field `[]*T` (T a generated message) with at least one element, the
 // message with element i set to nil marshals to the same bytes as with element i set to an empty T:
 // repeated message elements are never dropped (the reference has no nil elements; an absent element
@@ -888,6 +928,10 @@ func (c *ctx) nilElementOracle(l *Loaded, name string, msg picobuf.Message, cs f
 		saved.Set(f.Index(k))
 		f.Index(k).Set(reflect.Zero(et))
 		withNil, bad1 := realMarshal(msg)
+		if !f.Index(k).IsNil() {
+			c.disagree(Disagreement{Kind: "argument-modified", Check: "marshal-leaves-message",
+				Case: cs(map[string]string{"field_index": fmt.Sprint(i), "element": fmt.Sprint(k), "what": "a nil element of a repeated message field was replaced by Marshal"})})
+		}
 		f.Index(k).Set(reflect.New(et.Elem()))
 		withEmpty, bad2 := realMarshal(msg)
 		f.Index(k).Set(saved)
